@@ -28,6 +28,10 @@ func genForeignTree(r *rand.Rand) []member {
 	ms := []member{{Path: "", Dir: true, Mode: 0o755}}
 	dirs := []string{""}
 	comps := []string{"d", "e", "src", "a b", "x.y", "data", strings.Repeat("n", 60), "ü"}
+	if r.Float64() < 0.4 {
+		// hidden names next to their undotted twins: only a PREFIX './' or '/' is a root spelling
+		comps = append(comps, ".h", "h", "..x", "x", ".d", ".e")
+	}
 	if r.Float64() < 0.2 {
 		comps = append(comps, strings.Repeat("L", 120)) // PAX / GNU long-name territory
 	}
